@@ -230,6 +230,19 @@ def _files(ctx, case):
                 ctx.violation(case, "order-or-partition-dependent",
                               "%s: line %r -> %r, but %r when all files are run together" % (name, src, dst, together[src]))
                 return
+    ref = ipref.Ref(fcfg)
+    for f in files:
+        for segs in f:
+            src = lines.text_of(segs) + "\n"
+            if any(l["t"] == "near" for _, l in segs):
+                continue
+            exp = ipref.expected_forward(segs, ref) + "\n"
+            ctx.count("lines_vs_fresh_reference")
+            if together.get(src) != exp:
+                ctx.violation(case, "file-level-mapping-differs-from-fresh-reference",
+                              "FileAnonymizer (options given the way a library user would, defaults omitted) maps %r to %r, a fresh "
+                              "anonymizer built directly gives %r" % (src, together.get(src), exp))
+                return
     if not _files_api(ctx, case, fcfg, texts, together):
         return
     if case.get("cli"):
